@@ -221,6 +221,7 @@ enum Step {
     Recv(usize),        // read the response
     RecvNone(usize),    // expect no response (connection dies)
     Disconnect(usize),  // by request index: its connection
+    DisconnectConn(usize), // by connection (schedules derived from the specification)
     Reset(usize),       // HTTP/2: reset this request's stream only
     AwaitCancel(usize), // cancel mode: handler dropped
     Close,
@@ -473,6 +474,21 @@ impl ConnState {
 }
 
 /// One HTTP/2 request as its own task: emits what the client observed.
+/// What the client side of an HTTP/2 request ended with: decided once, under one lock together with the
+/// event that reports it, so that "received" and "reset" cannot both be reported for one request.
+static H2_OUTCOME: Mutex<Option<HashMap<String, &'static str>>> = Mutex::new(None);
+
+fn h2_outcome(nonce: &str, what: &'static str, ev: &str, fields: serde_json::Value) -> bool {
+    let mut g = H2_OUTCOME.lock().unwrap();
+    let m = g.get_or_insert_with(HashMap::new);
+    if m.contains_key(nonce) {
+        return false;
+    }
+    m.insert(nonce.to_string(), what);
+    emit(ev, fields);
+    true
+}
+
 fn spawn_h2_request(mut sender: H2Sender, q: ReqPlan) -> tokio::task::JoinHandle<()> {
     tokio::spawn(async move {
         let (method, target, body) = request_parts(&q);
@@ -483,7 +499,7 @@ fn spawn_h2_request(mut sender: H2Sender, q: ReqPlan) -> tokio::task::JoinHandle
             .body(http_body_util::Full::new(bytes::Bytes::from_static(body.unwrap_or(b""))))
             .unwrap();
         if sender.ready().await.is_err() {
-            emit("client_noresp", json!({"n": q.nonce, "empty": true, "problem": "h2 not ready"}));
+            h2_outcome(&q.nonce, "noresp", "client_noresp", json!({"n": q.nonce, "empty": true, "problem": "h2 not ready"}));
             return;
         }
         match sender.send_request(req).await {
@@ -503,20 +519,87 @@ fn spawn_h2_request(mut sender: H2Sender, q: ReqPlan) -> tokio::task::JoinHandle
                             .ok()
                             .and_then(|v| v.get("request_id").and_then(|x| x.as_str()).map(|x| x.to_string()))
                             .unwrap_or_default();
-                        emit("client_recv", json!({"n": q.nonce, "status": status, "complete": true,
+                        h2_outcome(&q.nonce, "recv", "client_recv", json!({"n": q.nonce, "status": status, "complete": true,
                             "idhdr": idhdr, "idbody": idbody, "nbody": b.len()}));
                     }
-                    Err(e) => emit("client_noresp", json!({"n": q.nonce, "empty": false, "problem": format!("h2 body: {}", e)})),
+                    Err(e) => {
+                        h2_outcome(&q.nonce, "noresp", "client_noresp", json!({"n": q.nonce, "empty": false, "problem": format!("h2 body: {}", e)}));
+                    }
                 }
             }
-            Err(e) => emit("client_noresp", json!({"n": q.nonce, "empty": true, "problem": format!("h2: {}", e)})),
+            Err(e) => {
+                h2_outcome(&q.nonce, "noresp", "client_noresp", json!({"n": q.nonce, "empty": true, "problem": format!("h2: {}", e)}));
+            }
         }
     })
 }
 
-async fn run_episode(r: &mut StdRng, ep: u64, mode: &str) {
+type Plan = (Vec<ReqPlan>, Vec<Step>, usize, Vec<bool>);
+
+fn intern(s: &str) -> &'static str {
+    for k in ["gate", "gatedrop", "panic", "err", "body", "badquery", "badbody", "badpath", "notfound", "full", "head", "body", "spec"] {
+        if k == s {
+            return k;
+        }
+    }
+    panic!("unknown word in plan file: {}", s)
+}
+
+/// A schedule derived from a behaviour of Lifecycle.tla (bin/checks_lifecycle.py, MC_LifecyclePlan.tla):
+/// {"reqs": [{"conn": 0, "h2": false, "kind": "gate", "partial": "full"}], "conn_h2": [false],
+///  "plan": [["Connect", 0], ["Send", 0], ...]}
+fn plan_from_json(v: &serde_json::Value, ep: u64) -> Plan {
+    let conn_h2: Vec<bool> = v["conn_h2"].as_array().unwrap().iter().map(|b| b.as_bool().unwrap()).collect();
+    let reqs: Vec<ReqPlan> = v["reqs"]
+        .as_array()
+        .unwrap()
+        .iter()
+        .enumerate()
+        .map(|(i, q)| {
+            let conn = q["conn"].as_u64().unwrap() as usize;
+            ReqPlan {
+                nonce: format!("s{}r{}", ep, i),
+                conn,
+                h2: conn_h2[conn],
+                kind: intern(q["kind"].as_str().unwrap()),
+                partial: intern(q["partial"].as_str().unwrap()),
+                fate: "spec",
+            }
+        })
+        .collect();
+    let plan: Vec<Step> = v["plan"]
+        .as_array()
+        .unwrap()
+        .iter()
+        .map(|st| {
+            let i = st[1].as_u64().unwrap_or(0) as usize;
+            match st[0].as_str().unwrap() {
+                "Connect" => Step::Connect(i),
+                "Send" => Step::Send(i),
+                "Finish" => Step::Finish(i),
+                "AwaitEnter" => Step::AwaitEnter(i),
+                "Release1" => Step::Release1(i),
+                "AwaitStep" => Step::AwaitStep(i),
+                "Release2" => Step::Release2(i),
+                "AwaitEnd" => Step::AwaitEnd(i),
+                "Recv" => Step::Recv(i),
+                "RecvNone" => Step::RecvNone(i),
+                "Disconnect" => Step::Disconnect(i),
+                "DisconnectConn" => Step::DisconnectConn(i),
+                "Reset" => Step::Reset(i),
+                "AwaitCancel" => Step::AwaitCancel(i),
+                "Close" => Step::Close,
+                other => panic!("unknown step {}", other),
+            }
+        })
+        .collect();
+    let nconn = conn_h2.len();
+    (reqs, plan, nconn, conn_h2)
+}
+
+async fn run_episode(r: &mut StdRng, ep: u64, mode: &str, given: Option<Plan>) {
     let mem_start = dropshot::verif::peek_memory(0).len();
-    run_episode_inner(r, ep, mode).await;
+    run_episode_inner(r, ep, mode, given).await;
     // Quiescence: every request the server started has either produced its response or had its future
     // dropped.  (With HTTP/2 each stream's future is its own task and may still be polled once after
     // close() has returned; its last event belongs to this episode, not the next one.)
@@ -543,8 +626,12 @@ async fn run_episode(r: &mut StdRng, ep: u64, mode: &str) {
     }
 }
 
-async fn run_episode_inner(r: &mut StdRng, ep: u64, mode: &str) {
-    let (reqs, plan, nconn, conn_h2) = make_plan(r, ep, mode);
+async fn run_episode_inner(r: &mut StdRng, ep: u64, mode: &str, given: Option<Plan>) {
+    let from_spec = given.is_some();
+    let (reqs, plan, nconn, conn_h2) = match given {
+        Some(p) => p,
+        None => make_plan(r, ep, mode),
+    };
     let ctx = Arc::new(Ctx { reqs: Mutex::new(HashMap::new()), changed: tokio::sync::Notify::new() });
     let mut api = ApiDescription::new();
     api.register(ep_gate_handler).unwrap();
@@ -562,7 +649,7 @@ async fn run_episode_inner(r: &mut StdRng, ep: u64, mode: &str) {
         },
         ..Default::default()
     };
-    emit("reset", json!({"episode": ep, "mode": mode,
+    emit("reset", json!({"episode": ep, "mode": mode, "from_spec": from_spec,
         "plan": plan.iter().map(|s| format!("{:?}", s)).collect::<Vec<_>>(),
         "reqs": reqs.iter().map(|q| json!({"n": q.nonce, "conn": q.conn, "h2": q.h2, "kind": q.kind, "partial": q.partial, "fate": q.fate})).collect::<Vec<_>>()}));
     let server = ServerBuilder::new(api, ctx.clone(), log).config(config).start().expect("server");
@@ -740,10 +827,25 @@ async fn run_episode_inner(r: &mut StdRng, ep: u64, mode: &str) {
                     c.close(); // closes the socket
                 }
             }
+            Step::DisconnectConn(ci) => {
+                let c = &mut conns[*ci];
+                if c.is_open() {
+                    emit("client_disconnect", json!({"c": format!("c{}", ci), "port": c.port}));
+                    let on_conn: Vec<usize> = h2_tasks.keys().cloned().filter(|j| reqs[*j].conn == *ci).collect();
+                    for j in on_conn {
+                        if let Some(t) = h2_tasks.remove(&j) {
+                            t.abort();
+                        }
+                    }
+                    c.close();
+                }
+            }
             Step::Reset(i) => {
                 if let Some(task) = h2_tasks.remove(i) {
-                    emit("client_reset", json!({"k": format!("r{}", i), "n": reqs[*i].nonce}));
-                    task.abort(); // dropping the response future resets the stream
+                    // no reset once the response (or its absence) has been reported
+                    if h2_outcome(&reqs[*i].nonce, "reset", "client_reset", json!({"k": format!("r{}", i), "n": reqs[*i].nonce})) {
+                        task.abort(); // dropping the response future resets the stream
+                    }
                 }
             }
             Step::Close => {
@@ -820,9 +922,19 @@ fn main() {
     let seed = seed_from_env();
     let rt = tokio::runtime::Builder::new_multi_thread().worker_threads(4).enable_all().build().unwrap();
     rt.block_on(async {
+        // schedules derived from behaviours of the specification first
+        if let Ok(path) = std::env::var("VERIF_PLANS") {
+            let text = std::fs::read_to_string(&path).expect("plan file");
+            for (k, line) in text.lines().filter(|l| !l.trim().is_empty()).enumerate() {
+                let v: serde_json::Value = serde_json::from_str(line).expect("plan line");
+                let ep = 1_000_000 + k as u64;
+                let mut r = rng(seed, ep * 2 + if mode == "cancel" { 0 } else { 1 });
+                run_episode(&mut r, ep, &mode, Some(plan_from_json(&v, ep))).await;
+            }
+        }
         for ep in 0..episodes {
             let mut r = rng(seed, ep * 2 + if mode == "cancel" { 0 } else { 1 });
-            run_episode(&mut r, ep, &mode).await;
+            run_episode(&mut r, ep, &mode, None).await;
         }
     });
     let lines = dropshot::verif::take_memory();
